@@ -181,6 +181,52 @@ def tag_range_inner(chk, fx, rule):
         chk.expect(ok, rule, "TagRange::inner", v, "the wrapped tag (own component masked at most)", t, loc=f"{h['loc']['f']}:{ln}")
 
 
+def meta_order_ascending(chk, fx, rule):
+    """FileMetaTable::into_element_iter emits the group-0002 elements in ascending tag order (C09: the written meta group is a valid
+    data set; C24: the JSON object of a file lists them in that order)"""
+    from . import c09
+    chk.rule(rule, "FileMetaTable::into_element_iter yields its elements in strictly ascending tag order")
+    hi = fx.hirfn("dicom_object::meta::FileMetaTable::into_element_iter")
+    etab = c09.element_table(hi)
+    tags = [v[0] for v in etab.values()]
+    bad = [(f"({a[0]:04X},{a[1]:04X})", f"({b[0]:04X},{b[1]:04X})") for a, b in zip(tags, tags[1:]) if not a < b]
+    chk.expect(len(tags) >= 12 and not bad, rule, "into_element_iter", "ascending", "each tag greater than the one before", bad or len(tags), loc=C.fn_loc(hi))
+
+
+def send_pdata_plumbing(chk, fx, rule):
+    """the P-DATA writers are created with the peer's maximum PDU length as negotiated, not a widened value (C26: every fragment fits)"""
+    chk.rule(rule, "SyncAssociation / AsyncAssociation ::send_pdata pass self.peer_max_pdu_length() unchanged to the writer")
+    n = 0
+    for h in fx.find_hir("dicom_ul", lambda p: re.search(r"association::(SyncAssociation|AsyncAssociation)::send_pdata$", p) is not None):
+        n += 1
+        ctor = [x for x in H.walk(h["body"]) if H.kind(x) == "call" and re.search(r"PDataWriter::<.*>::new$|PDataWriter::new$", H.callee(x) or "")]
+        arg = H.show(H.call_args(ctor[0])[2], 6) if ctor and len(H.call_args(ctor[0])) >= 3 else None
+        lets = {H.pat_bindings(x[2])[0]: H.show(x[3], 6) for x in H.walk(h["body"]) if H.kind(x) == "slet" and x[3] is not None and len(H.pat_bindings(x[2])) == 1}
+        val = lets.get(arg, arg)
+        chk.expect(val == "self.peer_max_pdu_length()", rule, h["path"].split("::")[-2] + "::send_pdata", "max-pdu-argument", "self.peer_max_pdu_length()", val, loc=C.fn_loc(h))
+    chk.floor(rule, "send_pdata default methods", n, 2)
+
+
+def pdata_reader_other_pdus_fail(chk, fx, rule):
+    """PDataReader: any PDU other than P-DATA-TF while data is expected is an error (C30: an abort never looks like a clean end of data)"""
+    chk.rule(rule, "PDataReader::read / poll_read: `match msg { Pdu::PData {..} => .., _ => error }` — no other PDU kind is swallowed")
+    P = "dicom_ul::pdu::Pdu"
+    n = 0
+    for h in fx.find_hir("dicom_ul", lambda p: "PDataReader" in p and re.search(r"::(read|poll_read)$", p) is not None):
+        ms = [m for m in H.walk(h["body"]) if H.kind(m) == "match" and m[3].replace("&", "").strip() == P]
+        if not ms:
+            continue
+        n += 1
+        for p, g, b, ln in H.match_arms(ms[0]):
+            hd = H.pat_head(H.pat_alts(p)[0])
+            v = hd[1].split("::")[-1] if hd[0] == "variant" else "_"
+            if v == "PData":
+                continue
+            errs = any(H.kind(x) == "ret" and "Err(" in H.show(x, 6).replace("core::result::Result::", "") for x in H.walk(b))
+            chk.expect(errs, rule, h["path"].split("::")[-1], f"arm:{v}", "returns an error", H.show(b, 4)[:120], loc=f"{h['loc']['f']}:{ln}")
+    chk.floor(rule, "reader functions with a match over Pdu", n, 2)
+
+
 def writer_text_identity(chk, fx, rule):
     """StatefulEncoder::convert_text_untrailed encodes the given text as it is (C04 exact lengths; C31: the command group length is
     computed from the in-memory text lengths, so the writer must not shorten or lengthen a value beyond the even-length pad)"""
